@@ -4,9 +4,11 @@ Model of `pedantic/decorators/fn_deco_validate/validators/*.py` and `convert_val
 
 * `Min`, `Max`, `MinLength`, `MaxLength`, `NotEmpty`: the *generated* translations in `PedVerif.Gen.Validators`
   (regenerated from the source on every run), lifted to `Val`.
-* `Email` with the default pattern: a hand-written matcher for exactly the generated `REGEX_EMAIL` under `re.fullmatch`.
-* `IsUuid`, `IsEnum`, `MatchPattern`, `DatetimeIsoFormat`, `DateTimeUnixTimestamp`, `Email` with a custom pattern: functions of
-  the answer of the stdlib callee (`Orc`), which travels with the case; the `except` tuples come from the generated tables.
+* `Email`, `IsUuid`, `IsEnum`, `MatchPattern`, `DatetimeIsoFormat`, `DateTimeUnixTimestamp`: the *generated* translations of their
+  bodies as well; the stdlib callees (`re`, `uuid.UUID(str(·))`, `isinstance(·, str)`, `str.upper`, `int`, `Enum(·)`,
+  `datetime.fromisoformat`, `float`, `timedelta`) are opaque function parameters whose answers (`Orc`) travel with the case.
+  For `Email` with the default pattern the `re` callee is a hand-written matcher for exactly the generated `REGEX_EMAIL` under
+  `re.fullmatch`; for `DateTimeUnixTimestamp` the date arithmetic `datetime(y, m, d) + timedelta` is computed here.
 * `ForEach` / `Composite`: trees over abstract leaf validators (`sem`).
 * `convert_value`: its structure tables are generated; `str()` of bool/int/None/str, `strip`, `lower`, `split`, `int(str)` are
   computed here, `str()` of other values and `float(str)` are oracle answers.
@@ -59,56 +61,43 @@ def emailMatch (isSpace : Char → Bool) (s : List Char) : Bool :=
        | none => false)
   | [] => false
 
-/-- `Email().validate(v)` with the default pattern; `post` is the `post_processor`.
-    `re.fullmatch` on a non-str is `TypeError` (outside the domain). -/
-def vEmail (isSpace : Char → Bool) (post : Val → Val) (v : Val) : VRes Val :=
-  match v with
-  | .str s => if !(emailMatch isSpace s) then .raises emailRejects else .ok (post v)
+/-- what `re.fullmatch(REGEX_EMAIL, x)` answers: the hand-written matcher on a str, `TypeError` on anything else
+    (outside the domain) -/
+def emailFullmatch (isSpace : Char → Bool) : Val → Orc Bool
+  | .str s => .ok (emailMatch isSpace s)
   | _ => .raises .typeError
 
-/-- `Email(email_pattern=p).validate(v)` for another pattern: `matched` is the answer of `re.fullmatch(p, v)` -/
-def vEmailCustom (matched : Orc Bool) (post : Val → Val) (v : Val) : VRes Val :=
-  match matched with
-  | .ok m => if !m then .raises emailRejects else .ok (post v)
-  | .raises e => .raises e
+/-- `Email().validate(v)` with the default pattern; `post` is the `post_processor`: the generated translation of the body,
+    with the matcher of the default pattern as its `re` callee -/
+def vEmail (isSpace : Char → Bool) (post : Val → Val) (v : Val) : VRes Val :=
+  emailValidate (emailFullmatch isSpace) post v
 
-/-! ### validators that ask the standard library -/
+/-- `Email(email_pattern=p).validate(v)` for another pattern: `reMatch x` is the answer of `re.fullmatch(p, x)` -/
+def vEmailCustom (reMatch : Val → Orc Bool) (post : Val → Val) (v : Val) : VRes Val :=
+  emailValidate reMatch post v
 
-/-- `MatchPattern(p).validate(v)`: `matched` is the answer of `re.compile(p).search(str(v))` -/
-def vMatchPattern (matched : Orc Bool) (v : Val) : VRes Val :=
-  match matched with
-  | .ok m => if !m then .raises matchPatternRejects else .ok v
-  | .raises e => .raises e
+/-! ### validators that ask the standard library: the generated translations of their bodies; the callees are parameters -/
 
-/-- `IsUuid(convert).validate(v)`: `o` is the answer of `uuid.UUID(str(v))` -/
-def vIsUuid (convert : Bool) (o : Orc Val) (v : Val) : VRes Val :=
-  tryExcept isUuidCaught0 (.raises isUuidHandler0) o (fun u => .ok (if convert then u else v))
+/-- `MatchPattern(p).validate(v)`: `reMatch x` is the answer of `re.compile(p).search(str(x))` -/
+def vMatchPattern (reMatch : Val → Orc Bool) (v : Val) : VRes Val := matchPatternValidate reMatch v
 
-/-- what `IsEnum.validate` asks: `isinstance(value, str)`, `value.upper()`, `issubclass(enum, IntEnum)`, `int(x)` and `enum(x)` for the raw value
-    (`false`) or the upper-cased one (`true`); the second index of `lookup` says whether `x` went through `int()` -/
+/-- `IsUuid(convert).validate(v)`: `uuidOfStr x` is the answer of `uuid.UUID(str(x))` -/
+def vIsUuid (convert : Bool) (uuidOfStr : Val → Orc Val) (v : Val) : VRes Val := isUuidValidate convert uuidOfStr v
+
+/-- what `IsEnum.validate` asks: `isinstance(x, str)` (true also for members of a StrEnum), `x.upper()`,
+    `issubclass(enum, IntEnum)`, `int(x)` and `enum(x)` -/
 structure EnumEnv where
-  valueIsStr : Bool          -- `isinstance(value, str)` (true also for members of a StrEnum)
-  upper : Val
+  isStrInst : Val → Bool
+  upperOf : Val → Val
   isIntEnum : Bool
-  intOf : Bool → Orc Val
-  lookup : Bool → Bool → Orc Val
-
-/-- the `try` body of `IsEnum.validate` after the upper-casing: `enum(int(x))` for an IntEnum, else `enum(x)` -/
-def EnumEnv.looked (env : EnumEnv) (up : Bool) : Orc Val :=
-  if env.isIntEnum then
-    match env.intOf up with
-    | .ok _ => env.lookup up true
-    | .raises e => .raises e
-  else env.lookup up false
+  intOf : Val → Orc Val
+  enumOf : Val → Orc Val
 
 def vIsEnum (convert toUpper : Bool) (env : EnumEnv) (v : Val) : VRes Val :=
-  let up := env.valueIsStr && toUpper
-  let v1 := if up then env.upper else v
-  tryExcept isEnumCaught0 (.raises isEnumHandler0) (env.looked up) (fun m => .ok (if convert then m else v1))
+  isEnumValidate convert toUpper env.isStrInst env.upperOf env.isIntEnum env.intOf env.enumOf v
 
-/-- `DatetimeIsoFormat().validate(v)`: `o` is the answer of `datetime.fromisoformat(v)` -/
-def vIso (o : Orc Val) (_v : Val) : VRes Val :=
-  tryExcept datetimeIsoFormatCaught0 (.raises datetimeIsoFormatHandler0) o (fun d => .ok d)
+/-- `DatetimeIsoFormat().validate(v)`: `fromIso x` is the answer of `datetime.fromisoformat(x)` -/
+def vIso (fromIso : Val → Orc Val) (v : Val) : VRes Val := datetimeIsoFormatValidate fromIso v
 
 /-- microseconds from 1970-01-01 to `datetime.min` / `datetime.max` -/
 def minUs : Int := -62135596800000000
@@ -127,27 +116,26 @@ def daysFromCivil (y m d : Int) : Int :=
   let doe := yoe * 365 + yoe / 4 - yoe / 100 + doy
   era * 146097 + doe - 719468
 
-/-- the date the source adds the seconds to (generated: the literal `datetime(<y>, <m>, <d>)` of the `return` statement), in
-    microseconds since 1970-01-01T00:00:00; `none` when the source adds them to something that is not a literal date -/
-def epochUs : Option Int :=
-  match dateTimeUnixTimestampEpoch with
+/-- the literal date `[y, m, d]` in microseconds since 1970-01-01T00:00:00; `none` when the list is not such a date (the source
+    adds the seconds to something that is not a literal date) -/
+def epochUsOf : List Int → Option Int
   | [y, m, d] => some (daysFromCivil y m d * 86400 * 1000000)
   | _ => none
 
-/-- `<epoch> + td`: `OverflowError("date value out of range")` outside `[datetime.min, datetime.max]` -/
-def addEpoch (us : Int) : Orc Val :=
-  match epochUs with
+/-- the date the source adds the seconds to (generated: the literal `datetime(<y>, <m>, <d>)` of the `return` statement) -/
+def epochUs : Option Int := epochUsOf dateTimeUnixTimestampEpoch
+
+/-- `datetime(y, m, d) + <timedelta of us microseconds>`: `OverflowError("date value out of range")` outside
+    `[datetime.min, datetime.max]` -/
+def datetimePlus (ymd : List Int) (us : Int) : Orc Val :=
+  match epochUsOf ymd with
   | some e => if minUs ≤ e + us ∧ e + us ≤ maxUs then .ok (mkDatetime (e + us)) else .raises .overflowError
   | none => .raises (.other "the seconds are not added to a literal date")
 
-/-- `DateTimeUnixTimestamp().validate(v)`: `fl` is the answer of `float(v)`, `td` that of `timedelta(seconds=float(v))`
-    in whole microseconds -/
-def vUnix (fl : Orc Num) (td : Orc Int) (v : Val) : VRes Val :=
-  if !(dateTimeUnixTimestampTypes.any (fun n => v.isInstanceOf n)) then .raises dateTimeUnixTimestampRejects
-  else
-    tryExcept dateTimeUnixTimestampCaught0 (.raises dateTimeUnixTimestampHandler0) fl (fun _ =>
-      tryExcept dateTimeUnixTimestampCaught1 (.raises dateTimeUnixTimestampHandler1)
-        (match td with | .ok us => addEpoch us | .raises e => .raises e) (fun d => .ok d))
+/-- `DateTimeUnixTimestamp().validate(v)`: `floatOf x` is the answer of `float(x)`, `timedeltaOf s` that of
+    `timedelta(seconds=s)` in whole microseconds; the date arithmetic is computed (`datetimePlus`) -/
+def vUnix (floatOf : Val → Orc Num) (timedeltaOf : Num → Orc Int) (v : Val) : VRes Val :=
+  dateTimeUnixTimestampValidate floatOf timedeltaOf datetimePlus v
 
 /-! ### what the standard-library callees can raise (environment facts; every class listed here is produced by some
     generated case, and the harness reports any class outside these lists as an internal inconsistency) -/
@@ -309,7 +297,31 @@ def dictInsert (k v : List Char) : List (List Char × List Char) → List (List 
 def normalise (env : CEnv) (s : List Char) : List Char :=
   convertNormalise.foldl (fun acc m => if m = "strip" then strip env.isSpace acc else if m = "lower" then lowerStr env acc else acc) s
 
-/-- `convert_value(value, target_type)` -/
+/-- `target_type(value)` for the normalised string `s`: what every target WITHOUT a branch of its own gets
+    (`bool(s)` is the truthiness of the string, `list(s)` its characters, `dict(s)` of a non-empty string is
+    `ValueError: dictionary update sequence element #0 has length 1; 2 is required`) -/
+def construct (env : CEnv) (s : List Char) : Target → Orc Val
+  | .bool => .ok (.bool (!s.isEmpty))
+  | .int => parseInt env s
+  | .float => env.floatOf s
+  | .str => .ok (.str s)
+  | .list => .ok (.list (s.map fun c => .str [c]))
+  | .dict => if s.isEmpty then .ok (.dict []) else .raises .valueError
+
+/-- the branch of its own that the source has for a target (for the targets it can have one for): the bool literals
+    (outside the try block), the comma-separated list, the `key:value` dict (`value = {…}`, then `return dict(value)`: a copy) -/
+def ownBranch (env : CEnv) (s : List Char) : Target → Option (VRes Val)
+  | .bool => some (
+      if convertBoolTrue.contains (String.ofList s) then .ok (.bool true)
+      else if convertBoolFalse.contains (String.ofList s) then .ok (.bool false)
+      else .raises convertBoolFail)
+  | .list => some (.ok (.list ((splitOn ',' s).map fun it => .str (strip env.isSpace it))))
+  | .dict => some (.ok (.dict ((splitOn ',' s).foldl
+      (fun d it => dictInsert (strip env.isSpace (beforeColon it)) (strip env.isSpace (afterColon it)) d) [])))
+  | _ => none
+
+/-- `convert_value(value, target_type)`.  Which targets have a branch of their own is read from the generated
+    `convertSpecialTargets`; every other target goes through `target_type(value)` inside the try block. -/
 def convert (env : CEnv) (v : Val) (t : Target) : VRes Val :=
   if convertShortcut && v.isOfTarget t then .ok v
   else
@@ -318,17 +330,23 @@ def convert (env : CEnv) (v : Val) (t : Target) : VRes Val :=
       if catches convertStrCaught e then .raises convertStrHandlerRaises else .raises e
     | .ok s0 =>
       let s := normalise env s0
-      match t with
-      | .bool =>
-        if convertBoolTrue.contains (String.ofList s) then .ok (.bool true)
-        else if convertBoolFalse.contains (String.ofList s) then .ok (.bool false)
-        else .raises convertBoolFail
-      | .list => .ok (.list ((splitOn ',' s).map fun it => .str (strip env.isSpace it)))
-      | .dict =>
-        .ok (.dict ((splitOn ',' s).foldl
-          (fun d it => dictInsert (strip env.isSpace (beforeColon it)) (strip env.isSpace (afterColon it)) d) []))
-      | .int => tryExcept convertCaught (.raises convertHandlerRaises) (parseInt env s) (fun r => .ok r)
-      | .float => tryExcept convertCaught (.raises convertHandlerRaises) (env.floatOf s) (fun r => .ok r)
-      | .str => .ok (.str s)
+      match (if convertSpecialTargets.contains t.name then ownBranch env s t else none) with
+      | some r => r
+      | none => tryExcept convertCaught (.raises convertHandlerRaises) (construct env s t) (fun r => .ok r)
+
+/-! ### the exception classes by name (links the generated `excBases` to `Exc.base`) -/
+
+def excOfName : String → Exc
+  | "ValidatorException" => .validator | "ConversionError" => .conversion | "ValidateException" => .validate
+  | "ValueError" => .valueError | "TypeError" => .typeError | "OverflowError" => .overflowError
+  | "AttributeError" => .attributeError | "KeyError" => .keyError | "IndexError" => .indexError
+  | "ArithmeticError" => .arithmeticError | "LookupError" => .lookupError | "Exception" => .exception
+  | "BaseException" => .baseException
+  | n => .other n
+
+/-- a class the model has a constructor for (its place in the hierarchy is `Exc.base`) -/
+def Exc.isModelled : Exc → Bool
+  | .other _ => false
+  | _ => true
 
 end PedVerif.Validators
